@@ -172,6 +172,22 @@ package keeper
 //@   ensures forall a Bytes :: bytes_len(a) == 20 ==> has(r, akey(a)) == pos.prevhas[a] && (pos.prevhas[a] ==> r[akey(a)] == enc_i64(pos.prev[a]))
 // the keys of the map as byte strings, each once (sorted by address: the order is not part of this contract);
 // nls.at[a] names the position of a in the returned list
+// C05 (heap mode, real aliasing): the result lists every key of the map once, each in a 20-byte slice of its own
+// (no two elements share memory - seed C05d made every element alias the range variable). The value-mode contract
+// below is what callers see; that it follows from this one is the value abstraction (a byte slice = its content).
+//@ func sortNoLongerStakedValidators(prevState valPowerMap) (r [][]byte)
+//@   props C05
+//@   mode heap
+//@   loop 1 frame
+//@   loop 1 invariant 0 <= iterpos(1) && iterpos(1) <= iterlen(1)
+//@   loop 1 invariant index == iterpos(1)
+//@   loop 1 invariant len(noLongerStaked) == iterlen(1)
+//@   loop 1 invariant fresh(noLongerStaked)
+//@   loop 1 invariant forall j int :: 0 <= j && j < index ==> len(noLongerStaked[j]) == 20 && loopfresh(noLongerStaked[j]) && (forall b int :: 0 <= b && b < 20 ==> noLongerStaked[j][b] == iterkey(1, j)[b])
+//@   loop 1 invariant forall i int, j int :: 0 <= i && i < j && j < index ==> ref(noLongerStaked[i]) != ref(noLongerStaked[j])
+//@   ensures [each-key] len(r) == iterlen(1) && (forall j int :: 0 <= j && j < len(r) ==> len(r[j]) == 20 && (exists i int :: 0 <= i && i < iterlen(1) && (forall b int :: 0 <= b && b < 20 ==> r[j][b] == iterkey(1, i)[b])))
+//@   ensures [complete] forall i int :: 0 <= i && i < iterlen(1) ==> (exists j int :: 0 <= j && j < len(r) && (forall b int :: 0 <= b && b < 20 ==> r[j][b] == iterkey(1, i)[b]))
+//@   ensures [own-memory] forall i int, j int :: 0 <= i && i < j && j < len(r) ==> ref(r[i]) != ref(r[j])
 //@ assumed func sortNoLongerStakedValidators(prevState valPowerMap) (r [][]byte)
 //@   mode value
 //@   modifies nls.at
